@@ -44,6 +44,7 @@ fn invoke(prop: &str, tier: &str, case: Option<&str>) -> Result<(Value, Option<V
             None => Err(format!("thread exploration printed no result: {}", text.chars().take(300).collect::<String>())),
         },
         Some(3) => Ok((rewrite, None, Some("the copy of the library with std's synchronisation primitives redirected to the scheduler's does not build; interleavings of OS threads were not explored in this run".into()))),
+        Some(4) => Ok((rewrite, None, Some("the thread exploration did not end within its time limit (a primitive the scheduler does not model can block a scheduled thread for good); interleavings of OS threads were not explored in this run".into()))),
         c => Err(format!("thread exploration failed (exit {c:?}): {}", text.lines().filter(|l| l.starts_with("THR-ERROR")).collect::<Vec<_>>().join(" "))),
     }
 }
